@@ -456,7 +456,7 @@ def finish(run):
     need = ["cl|nonlinear|3keys|const=some|pe|invariant", "cl|nonlinear|3keys|const=some|pe", "cl|nonlinear|field",
             "re|nonlinear|3keys|const=some|pe", "re|nonlinear|3keys|const=none|eager|vmap|ns=0", "re|nonlinear|3keys|const=none|jit|vmap"]
     missing = [x for x in need if not any(h.startswith(x) for h in have)]
-    if missing and not run.violations:
+    if missing and not run.violations and not run.extra.get("filtered_by"):
         run.violations.append((dict(vacuity=missing), bad("no passing case of class %s" % missing, finding_key="harness|vacuous-class")))
     return dict(classic_cases=sum(v for o, v in run.outcomes.items() if o.startswith("cl|")),
                 jax_cases=sum(v for o, v in run.outcomes.items() if o.startswith("re|")))
